@@ -128,22 +128,65 @@ def _ctx(f, n, stop, labels, first_line=0):
                 ctx.append((resolve_key(f, a["c"][0]) + ver, True))
             elif len(a["c"]) > 2 and a["c"][2] is not None and any(x is cur for x in walk(a["c"][2])):
                 ctx.append((resolve_key(f, a["c"][0]) + ver, False))
-        elif a["k"] == "CaseStmt" and (a.get("en") or str(a.get("v"))) not in labels:
-            ctx.append(("case", a.get("en") or str(a.get("v"))))
-        elif a["k"] == "DefaultStmt" and "default" not in labels:
-            ctx.append(("case", "default"))
+        elif a["k"] in ("CaseStmt", "DefaultStmt"):
+            lab = "default" if a["k"] == "DefaultStmt" else (a.get("en") or str(a.get("v")))
+            own = next((b for b in f.ancestors(a) if b["k"] == "SwitchStmt"), None)
+            if own is stop or own is None:
+                if lab not in labels:
+                    ctx.append(("case", lab))
+            else:
+                sid = "case@%s:%d" % (f.name, own["l"])
+                if sid not in SWITCH_LABELS:
+                    labs = set()
+                    for y in walk(own["c"][1]):
+                        if y["k"] in ("CaseStmt", "DefaultStmt") and next((b for b in f.ancestors(y) if b["k"] == "SwitchStmt"), None) is own:
+                            labs.add("default" if y["k"] == "DefaultStmt" else (y.get("en") or str(y.get("v"))))
+                    SWITCH_LABELS[sid] = labs
+                prev = [it for it in ctx if it[0] == sid]
+                if prev:
+                    # `case 7: default: stmt` - one statement under several labels of the same switch
+                    ctx.remove(prev[0])
+                    ctx.append((sid, "|".join(sorted(set(prev[0][1].split("|")) | {lab}))))
+                else:
+                    ctx.append((sid, lab))
         elif a["k"] in ("WhileStmt", "ForStmt", "DoStmt"):
             ctx.append(("loop", str(a["l"] - stop["l"])))
         cur = a
     return frozenset(ctx)
 
 
+SWITCH_LABELS = {}       # "case@function:line" -> all labels of that (inner) switch
+
+
 def _merge(ctxs):
-    """Merge contexts that differ only in the polarity of one condition (event printed in both branches)."""
+    """Merge contexts that differ only in the polarity of one condition (event printed in both branches), and contexts that
+    differ only in the label of one inner switch when together they cover every label of a switch that has a default."""
     ctxs = list(ctxs)
     changed = True
     while changed:
         changed = False
+        # exhaustive inner switch
+        for sid, labs in SWITCH_LABELS.items():
+            if "default" not in labs:
+                continue
+            groups = {}
+            for idx, cx in enumerate(ctxs):
+                items = [it for it in cx if it[0] == sid]
+                if len(items) == 1:
+                    groups.setdefault(cx - {items[0]}, {}).setdefault(items[0][1], []).append(idx)
+            for rest, bylab in groups.items():
+                if {l2 for l1 in bylab for l2 in l1.split("|")} >= labs:
+                    k = min(len(v) for v in bylab.values())
+                    drop = sorted((i for v in bylab.values() for i in v[:k]), reverse=True)
+                    for i in drop:
+                        del ctxs[i]
+                    ctxs.extend([rest] * k)
+                    changed = True
+                    break
+            if changed:
+                break
+        if changed:
+            continue
         for i in range(len(ctxs)):
             for j in range(i + 1, len(ctxs)):
                 a, b = ctxs[i], ctxs[j]
@@ -206,6 +249,11 @@ def r_balance(P, chk, units=None):
                     items = []
                     if s is not None:
                         items = [(k, nm, frozenset()) for k, nm in _events_in_literal(s, mode)]
+                        if mode == "tex":
+                            # unescaped braces: `\\section{` opens a group that a later `}` closes
+                            t_ = re.sub(r"\\\\|\\[{}]", "", s)
+                            d_ = t_.count("{") - t_.count("}")
+                            items += [("o" if d_ > 0 else "c", "{group}", frozenset())] * abs(d_)
                     else:
                         h = _leaf_helper(P, f, c)
                         if h is not None:
@@ -218,7 +266,7 @@ def r_balance(P, chk, units=None):
                         continue
                     cx = _ctx(f, c, sw, labels, sect[0]["l"])
                     for k, nm, extra in items:
-                        if nm not in closed:
+                        if nm not in closed and nm != "{group}":
                             continue
                         n_events += 1
                         ev.setdefault(nm, {"o": [], "c": []})[k].append(cx | extra)
@@ -269,6 +317,44 @@ def r_balance(P, chk, units=None):
                               "%s: the %s of <%s> under guard %s in branch %s has no matching %s under the same guard (%s)" % (
                                   fn, "opening" if tot > 0 else "closing", nm, sorted(map(str, cx)) or "[unconditional]",
                                   "/".join(culprit), "closing" if tot > 0 else "opening", who))
+    # an element that is never closed by name anywhere in its unit can only be well-formed if it is self-closing: after the
+    # literal that opens it, a literal carrying the `/>` terminator follows on every path (before the function returns)
+    n_void = 0
+    seen_units = set()
+    for unit, fn, mode in DISPATCHERS:
+        if mode != "xml" or unit in seen_units or (units is not None and unit not in units):
+            continue
+        seen_units.add(unit)
+        u = P.units[unit]
+        closed_u = set()
+        for g in u.funcs.values():
+            for c in g.calls():
+                s_ = _literal(c)
+                if s_:
+                    closed_u |= {nm for k, nm in _events_in_literal(s_, "xml") if k == "c"}
+        for g in u.funcs.values():
+            pos = g.cfg.positions()
+            enders = [c for c in g.calls() if "/>" in (_literal(c) or "") and c.get("i") in pos]
+            for c in g.calls():
+                s_ = _literal(c)
+                if not s_ or c.get("i") not in pos:
+                    continue
+                for m in XML_OPEN.finditer(s_):
+                    nm = m.group(1)
+                    if nm in closed_u or m.group(3) == ">" and (m.group(2) or "").rstrip().endswith("/"):
+                        continue
+                    if "/>" in s_[m.end():]:
+                        continue
+                    n_void += 1
+                    ok = any(g.cfg.postdominates(e["i"], c["i"]) for e in enders if e is not c)
+                    chk.obligation(rid, "%s %s: <%s> is never closed by name in %s, so it is terminated by `/>` on every path" % (
+                        g.where(c), g.name, nm, unit), ok)
+                    if not ok:
+                        chk.violation(rid, "balance:void:%s:%s" % (g.name, nm), g.where(c),
+                                      "%s opens <%s ...> but no `</%s>` exists anywhere in %s and no `/>` terminator follows on every "
+                                      "path: the element is left open (or is closed under another name)" % (g.name, nm, nm, unit))
+    if seen_units:
+        chk.floor(rid, n_void, 2, "elements never closed by name (must be self-closing)")
     chk.floor(rid, n_sections, 150, "case sections of the writers' dispatchers")
     chk.floor(rid, n_events, 100, "open/close tag events")
     chk.analysed[rid] = {"sections": n_sections, "tag_events": n_events, "dispatchers": [d[1] for d in DISPATCHERS]}
